@@ -1130,6 +1130,77 @@ def _unroll_literal_loops(mods: dict[str, Module], log: list[str]) -> None:
                     work.extend(node.handlers)
 
 
+def _unroll_literal_comprehensions(mods: dict[str, Module], log: list[str]) -> None:
+    """`*(f(k) for k in ("a", "b"))` inside a display / call, and `[f(k) for k in ("a", "b")]`, over a literal display of at most 24 simple items,
+    are read as the spelled-out elements (a reader of positional tuples then sees one element per position)."""
+    class T(ast.NodeTransformer):
+        def __init__(self) -> None:
+            self.n = 0
+
+        def _items(self, comp) -> list[ast.expr] | None:
+            if not isinstance(comp, (ast.GeneratorExp, ast.ListComp)) or len(comp.generators) != 1:
+                return None
+            gen = comp.generators[0]
+            if gen.ifs or gen.is_async or not isinstance(gen.iter, (ast.Tuple, ast.List)) or not 1 <= len(gen.iter.elts) <= 24:
+                return None
+            tg = gen.target
+            names = [tg] if isinstance(tg, ast.Name) else list(tg.elts) if isinstance(tg, (ast.Tuple, ast.List)) and all(isinstance(x, ast.Name) for x in tg.elts) else None
+            if names is None:
+                return None
+            out = []
+            for it in gen.iter.elts:
+                if isinstance(tg, ast.Name):
+                    if not _simple(it):
+                        return None
+                    mapping = {tg.id: it}
+                else:
+                    if not (isinstance(it, (ast.Tuple, ast.List)) and len(it.elts) == len(names) and all(_simple(x) for x in it.elts)):
+                        return None
+                    mapping = {x.id: v for x, v in zip(names, it.elts)}
+                out.append(_Subst(mapping).visit(_clone(comp.elt)))
+            return out
+
+        def _splice(self, elts: list[ast.expr]) -> list[ast.expr]:
+            out: list[ast.expr] = []
+            for e in elts:
+                inner = e.value if isinstance(e, ast.Starred) else None
+                if inner is not None and isinstance(inner, ast.Call) and (isinstance(inner.func, ast.Name) and inner.func.id in ("tuple", "list")) and len(inner.args) == 1 and not inner.keywords:
+                    inner = inner.args[0]
+                items = self._items(inner) if inner is not None else None
+                if items is not None:
+                    out.extend(items)
+                    self.n += 1
+                else:
+                    out.append(e)
+            return out
+
+        def visit_Tuple(self, node: ast.Tuple):  # noqa: N802
+            self.generic_visit(node)
+            node.elts = self._splice(node.elts)
+            return node
+
+        visit_List = visit_Tuple  # noqa: N815
+
+        def visit_Call(self, node: ast.Call):  # noqa: N802
+            self.generic_visit(node)
+            node.args = self._splice(node.args)
+            return node
+
+        def visit_ListComp(self, node: ast.ListComp):  # noqa: N802
+            self.generic_visit(node)
+            items = self._items(node)
+            if items is not None:
+                self.n += 1
+                return ast.copy_location(ast.List(elts=items, ctx=ast.Load()), node)
+            return node
+
+    for mod in mods.values():
+        t = T()
+        t.visit(mod.tree)
+        if t.n:
+            log.append(f"{mod.relpath}: {t.n} comprehension(s) over a literal display spelled out")
+
+
 def _split_conditional_with(mods: dict[str, Module], log: list[str]) -> None:
     """`with f(x, mode=A if c else B) as v: body` with a pure test `c` is read as `if c: with f(.., A): body else: with f(.., B): body`, and inside a branch
     taken under `c` (resp. `not c`) a nested `if c:` keeps only the branch that can run."""
@@ -1188,6 +1259,21 @@ def _split_conditional_with(mods: dict[str, Module], log: list[str]) -> None:
 
 
 # ---------------------------------------------------------------------------------------------------- module constants
+def _const_expr(v: ast.expr, depth: int = 0) -> bool:
+    """A literal, or arithmetic over literals (`2**16`, `-1`, `(1, 2)`)."""
+    if depth > 4:
+        return False
+    if isinstance(v, ast.Constant):
+        return True
+    if isinstance(v, ast.UnaryOp):
+        return _const_expr(v.operand, depth + 1)
+    if isinstance(v, ast.BinOp):
+        return _const_expr(v.left, depth + 1) and _const_expr(v.right, depth + 1)
+    if isinstance(v, ast.Tuple):
+        return all(_const_expr(x, depth + 1) for x in v.elts)
+    return False
+
+
 def _inline_new_constants(mods: dict[str, Module], inv: dict, log: list[str]) -> None:
     """A module-level name that the reference tree does not have, bound once to a literal (`_SERIES_FILENAME = "series_samp.h5"`), is read as that literal."""
     for mod in mods.values():
@@ -1198,8 +1284,7 @@ def _inline_new_constants(mods: dict[str, Module], inv: dict, log: list[str]) ->
         for node in mod.tree.body:
             if isinstance(node, ast.Assign) and len(node.targets) == 1 and isinstance(node.targets[0], ast.Name) and node.targets[0].id not in old["constants"]:
                 v = node.value
-                lit = isinstance(v, ast.Constant) or (isinstance(v, ast.UnaryOp) and isinstance(v.operand, ast.Constant)) or \
-                    (isinstance(v, (ast.Tuple,)) and all(isinstance(x, ast.Constant) for x in v.elts))
+                lit = _const_expr(v)
                 if lit:
                     new_consts[node.targets[0].id] = v
         for name in list(new_consts):
@@ -1356,6 +1441,7 @@ def canonicalise(mods: dict[str, Module]) -> dict:
     inl.run()
     fwd_log: list[str] = []
     _unroll_literal_loops(mods, fwd_log)
+    _unroll_literal_comprehensions(mods, fwd_log)
     _Forward(mods, inv, fwd_log).run()
     _split_conditional_with(mods, fwd_log)
     fwd_log.extend(cm_log)
